@@ -247,7 +247,7 @@ def run(tier: str, seed: int, rep: Report, model: Model) -> dict:
     rep.rule = ("families of 3 functions sharing 1-4 annotation aliases (optional and not) and a provider (fresh or long-lived dict), random "
                 "decoration order, 4-8 steps (calls conforming / resized / None, provider updates in place or by rebinding); thread runs "
                 "with 8 threads; nested checked calls; distinct = distinct family; non-trivial = an alias is used both with and without | None")
-    rep.rule += '; a quarter of the families lazy (quoted alias names resolved at the first call, one decorator object shared by the siblings); nested runs incl. recursion and inner calls from a joined thread; thread runs with a rendezvous inside the body; one array object changed in place between validations (function, dataclass, NamedTuple, pydantic, check; numpy and torch); bodies that re-rank their argument in place'
+    rep.rule += '; a quarter of the families lazy (quoted alias names resolved at the first call, one decorator object shared by the siblings); nested runs incl. recursion and inner calls from a joined thread; thread runs with a rendezvous inside the body and inside get_dltype_scope of the provider; one array object changed in place between validations (function, dataclass, NamedTuple, pydantic, check; numpy and torch); bodies that re-rank their argument in place'
     fams = []
     while len(fams) < n_seq:
         f = gen_family(rnd)
